@@ -28,6 +28,7 @@ type Profile struct {
 	MapNShare   int
 	UnobsWrites bool // allow writes to unobserved vars from inside a pass
 	Cycles      bool // AddInput may close a cycle
+	ScopeRead   int  // share of constructions that are a top-level Map/Map2 reading a node created inside a bind scope (a handle the user function handed out; out of 100)
 	DeadObs     int  // share of Observe operations aimed at a node of a discarded bind generation (a handle the user function kept; out of 100)
 	Inner       int  // share of Observe operations aimed at a node created inside a bind scope (out of 100)
 	Wide        bool // MapN nodes with 65..150 inputs (past the edge index threshold)
@@ -143,6 +144,21 @@ func (g *Gen) construct() (Op, bool) {
 			return Op{K: "NewReturn", V: g.R.Range(0, 6)}, true
 		}
 		return Op{K: "NewVar", V: g.R.Range(0, 6), Eq: g.P.VarEqual && g.R.Chance(1, 3)}, true
+	}
+	if g.R.Intn(100) < g.P.ScopeRead {
+		var inner []int
+		for id, ref := range g.E.Nodes {
+			if ref != nil && ref.Scope != -1 && ref.Inc != nil && !ref.Recycled && ref.Kind != "BindLhs" && ref.Kind != "Pair" && g.inputsIntact(id, 0) {
+				inner = append(inner, id)
+			}
+		}
+		if len(inner) > 0 {
+			a := g.pick(inner)
+			if g.R.Chance(1, 2) {
+				return Op{K: "NewMap2", F2: g.fn2(), A: a, B: g.pick(nodes)}, true
+			}
+			return Op{K: "NewMap", F1: g.fn1(), A: a}, true
+		}
 	}
 	k := g.R.Intn(100)
 	switch {
